@@ -2676,6 +2676,12 @@ func (s *Server) serveConnCounted(c net.Conn, countConcurrency bool) error {
 			// rest of it is still on the connection in front of the next request.
 			connectionClose = true
 		}
+		if ctx.timeoutResponse == nil && ctx.Request.bodyStreamUnread {
+			// Same, but the handler already released the unread stream
+			// (Request.Body() hitting a read error, ResetBody, CloseBodyStream).
+			ctx.Request.bodyStreamUnread = false
+			connectionClose = true
+		}
 
 		timeoutResponse = ctx.timeoutResponse
 		if timeoutResponse != nil {
